@@ -86,6 +86,7 @@ package fiber
 // the address set (only), a CIDR entry becomes one more range (only).
 //@ func (*App).handleTrustedProxy
 //@   props C10
+//@   modifies app.config.TrustProxyConfig.ranges, elems(app.config.TrustProxyConfig.ranges), heap(MD_string_struct__), heap(MV_string_struct__)
 //@   requires ips-made: app.config.TrustProxyConfig.ips != nil
 //@   ensures listed-address: !strContains(ipAddress, "/") && parseIPok(ipAddress) ==> indom(app.config.TrustProxyConfig.ips, ipAddress)
 //@   ensures address-adds-no-range: !strContains(ipAddress, "/") ==> app.config.TrustProxyConfig.ranges == old(app.config.TrustProxyConfig.ranges)
@@ -212,7 +213,8 @@ package fiber
 //@ ..    old(c.indexRoute) < c.indexRoute && forall(k, old(c.indexRoute) + 1, c.indexRoute, tree[k].mount || !matches(tree[k], old(dpOf(c)), old(pathOf(c)), epoch))
 //@   atcall Route.Handlers$elem: context-points-at-route: c.route == route && c.indexHandler == 0 && as(arg0, *DefaultCtx) == c
 //@   atcall Route.Handlers$elem: matched-flag: c.matched == (old(c.matched) || !route.use)
-//@   ensures no-match-is-an-error: !called(Route.Handlers$elem) ==> !result0 && result1 != nil
+//@   ensures no-match-is-an-error: !result0 ==> result1 != nil
+//@   ensures no-handler-no-match: !called(Route.Handlers$elem) ==> !result0
 
 // The same scan for custom contexts: all state is reached through the CustomCtx interface (assumed contracts:
 // accessor pairs over ghost maps; the detection path is the folded path).
@@ -269,7 +271,8 @@ package fiber
 //@ ..    old(ciIdx)[c] < ciIdx[c] && forall(k, old(ciIdx)[c] + 1, ciIdx[c], !matches(tree[k], cdp(c, epoch), cpath(c, epoch), epoch))
 //@   atcall Route.Handlers$elem: context-points-at-route: ciRoute[c] == route && ciHandler[c] == 0 && arg0 == c
 //@   atcall Route.Handlers$elem: matched-flag: ciMatched[c] == (old(ciMatched)[c] || !route.use)
-//@   ensures no-match-is-an-error: !called(Route.Handlers$elem) ==> !result0 && result1 != nil
+//@   ensures no-match-is-an-error: !result0 ==> result1 != nil
+//@   ensures no-handler-no-match: !called(Route.Handlers$elem) ==> !result0
 
 // addRoute: a registration is merged into the previous route of the method's stack only when it has the same
 // registered path, the same kind (use/endpoint) and neither is a mount marker; otherwise it is appended with
